@@ -113,6 +113,35 @@ def build_model():
     _prune(os.path.join(BUILD, 'model'), keep=3)
     return exe
 
+def build_modelx():
+    """The model plus the decision predicates of Proofs_Decide.v (ExtractX.v: needs the whole proof chain of C01).
+    Same glue as build_model(), with the module name swapped and the L-line hook switched on."""
+    vs = [os.path.join(COQ, f) for f in coq_files() if not f.startswith('Properties_')]
+    glue = os.path.join(VERIF, 'harness', 'model_main.ml')
+    key = _hash_files(vs + [glue, os.path.join(COQ, 'ExtractX.v')])
+    outdir = os.path.join(BUILD, 'modelx', key)
+    exe = os.path.join(outdir, 'model_main')
+    if os.path.exists(exe):
+        os.utime(outdir, None)
+        return exe
+    ok, log = build_coq(['ExtractX.vo'])
+    os.makedirs(outdir, exist_ok=True)
+    r = sh(['timeout', '600', 'coqc', '-Q', COQ, 'EZ', os.path.join(COQ, 'ExtractX.v'), '-o', os.path.join(outdir, 'ExtractX.vo')], cwd=outdir)
+    if r.returncode != 0 or not os.path.exists(os.path.join(outdir, 'modelx.ml')):
+        shutil.rmtree(outdir, ignore_errors=True)
+        raise RuntimeError('extraction (with decision predicates) failed\n' + log[-2000:] + r.stdout[-3000:])
+    src = open(glue).read()
+    assert 'module M = Model\n' in src and 'let ls_hook : (M.state -> bool * bool * bool list) option = None' in src
+    src = src.replace('module M = Model\n', 'module M = Modelx\n').replace(
+        'let ls_hook : (M.state -> bool * bool * bool list) option = None', 'let ls_hook : (M.state -> bool * bool * bool list) option = Some (fun s -> (M.ls_ok_x s, M.ls4_ok_x s, M.ls_flags_x s))')
+    open(os.path.join(outdir, 'model_main.ml'), 'w').write(src)
+    r = sh(['ocamlfind', 'ocamlopt', '-package', 'zarith', '-linkpkg', '-w', '-a', '-O3', 'modelx.mli', 'modelx.ml', 'model_main.ml', '-o', 'model_main'], cwd=outdir)
+    if r.returncode != 0:
+        shutil.rmtree(outdir, ignore_errors=True)
+        raise RuntimeError('ocaml build failed\n' + r.stdout[-3000:])
+    _prune(os.path.join(BUILD, 'modelx'), keep=3)
+    return exe
+
 if __name__ == '__main__':
     t = time.time()
     ok, log = build_coq()
